@@ -20,6 +20,8 @@ struct Found {
     line: usize,
     /// for a closure kernel: the enclosing function
     outer: Option<(syn::Signature, syn::Block)>,
+    /// token string of the attributes of the function and of the impl block it sits in
+    attrs: String,
 }
 
 fn last_ident(p: &syn::Path) -> String {
@@ -87,7 +89,7 @@ fn find_in_items(items: &[Item], loc: &Loc, out: &mut Vec<Found>) -> Result<(), 
                 syn::Expr::Block(b) if b.label.is_none() => b.block.clone(),
                 e => syn::parse_quote!({ #e }),
             };
-            out.push(Found { sig, body, line: cl.or1_token.span.start().line, outer: Some((f.sig.clone(), f.body.clone())) });
+            out.push(Found { sig, body, line: cl.or1_token.span.start().line, outer: Some((f.sig.clone(), f.body.clone())), attrs: f.attrs.clone() });
         }
         return Ok(());
     }
@@ -102,14 +104,14 @@ fn find_in_items(items: &[Item], loc: &Loc, out: &mut Vec<Found>) -> Result<(), 
                 }
             }
             (Item::Fn(f), Loc::Free(name)) if f.sig.ident == name => {
-                out.push(Found { sig: f.sig.clone(), body: (*f.block).clone(), line: f.sig.ident.span().start().line, outer: None });
+                out.push(Found { sig: f.sig.clone(), body: (*f.block).clone(), line: f.sig.ident.span().start().line, outer: None, attrs: f.attrs.iter().map(|a| quote::ToTokens::to_token_stream(a).to_string()).collect::<Vec<_>>().join(" ") });
             }
             (Item::Trait(t), Loc::Trait(tr, name)) if t.ident == tr => {
                 for ti in &t.items {
                     if let TraitItem::Fn(f) = ti {
                         if f.sig.ident == name {
                             match &f.default {
-                                Some(b) => out.push(Found { sig: f.sig.clone(), body: b.clone(), line: f.sig.ident.span().start().line, outer: None }),
+                                Some(b) => out.push(Found { sig: f.sig.clone(), body: b.clone(), line: f.sig.ident.span().start().line, outer: None, attrs: String::new() }),
                                 None => return Err(format!("trait method {}::{} has no default body any more", tr, name)),
                             }
                         }
@@ -131,7 +133,7 @@ fn find_in_items(items: &[Item], loc: &Loc, out: &mut Vec<Found>) -> Result<(), 
                 for ii in &i.items {
                     if let ImplItem::Fn(m) = ii {
                         if m.sig.ident == f {
-                            out.push(Found { sig: m.sig.clone(), body: m.block.clone(), line: m.sig.ident.span().start().line, outer: None });
+                            out.push(Found { sig: m.sig.clone(), body: m.block.clone(), line: m.sig.ident.span().start().line, outer: None, attrs: i.attrs.iter().chain(m.attrs.iter()).collect::<Vec<_>>().iter().map(|a| quote::ToTokens::to_token_stream(a).to_string()).collect::<Vec<_>>().join(" ") });
                         }
                     }
                 }
@@ -141,7 +143,7 @@ fn find_in_items(items: &[Item], loc: &Loc, out: &mut Vec<Found>) -> Result<(), 
                 let e: syn::Expr = syn::parse2(body).map_err(|e| format!("body of macro_rules! {} does not parse as an expression after substitution: {}", mac, e))?;
                 let sig: syn::Signature = syn::parse_quote!(fn macro_body());
                 let line = m.ident.as_ref().map(|i| i.span().start().line).unwrap_or(0);
-                out.push(Found { sig, body: syn::parse_quote!({ #e }), line, outer: None });
+                out.push(Found { sig, body: syn::parse_quote!({ #e }), line, outer: None, attrs: String::new() });
             }
             (Item::Macro(m), Loc::InMacro { mac, subst, inner }) if m.ident.as_ref().map(|i| i == mac).unwrap_or(false) => {
                 let body = macro_body(m.mac.tokens.clone(), subst).ok_or_else(|| format!("cannot find the body of macro_rules! {}", mac))?;
@@ -224,8 +226,14 @@ fn callees(body: &syn::Block, method: bool, nargs: usize) -> Vec<String> {
 /// renamed - through its call site in a public function (`via`).  Returns the definition and, in the second
 /// case, (actual name, table name).
 fn resolve(items: &[Item], loc: &Loc, via: Option<&specs::Via>) -> Result<(Found, Option<(String, String)>), String> {
+    resolve_f(items, loc, via, None)
+}
+fn resolve_f(items: &[Item], loc: &Loc, via: Option<&specs::Via>, filter: Option<(&str, bool)>) -> Result<(Found, Option<(String, String)>), String> {
     let mut found = vec![];
     find_in_items(items, loc, &mut found)?;
+    if let (true, Some((pat, want))) = (found.len() > 1, filter) {
+        found.retain(|f| f.attrs.contains(pat) == want);
+    }
     if found.len() == 1 {
         return Ok((found.pop().unwrap(), None));
     }
@@ -401,7 +409,50 @@ fn main() {
         });
         let res: Result<(trans::Out, usize), String> = (|| {
             let file = parsed.as_ref().map_err(|e| e.clone())?;
-            let (f, _) = resolve(&file.items, &spec.loc, spec.via.as_ref())?;
+            if let Some((traits, macs)) = &spec.inventory {
+                // the inventory of the file: (trait, implementing type) and (macro, arguments) in source order
+                let mut rows: Vec<String> = vec![];
+                fn walk(items: &[Item], traits: &[&str], macs: &[&str], structs: &[&str], rows: &mut Vec<String>) {
+                    for it in items {
+                        match it {
+                            Item::Struct(st) if structs.contains(&st.ident.to_string().as_str()) => {
+                                for a in &st.attrs {
+                                    if a.path().is_ident("derive") {
+                                        if let syn::Meta::List(l) = &a.meta {
+                                            rows.push(format!("inv {} {}", json_str(&format!("derive {}", st.ident)), json_str(&l.tokens.to_string())));
+                                        }
+                                    }
+                                }
+                            }
+                            Item::Mod(m) => {
+                                if let (false, Some((_, l))) = (is_cfg_test(&m.attrs), &m.content) {
+                                    walk(l, traits, macs, structs, rows);
+                                }
+                            }
+                            Item::Impl(i) => {
+                                if let Some((_, p, _)) = &i.trait_ {
+                                    let tn = last_ident(p);
+                                    if traits.contains(&tn.as_str()) {
+                                        rows.push(format!("inv {} {}", json_str(&tn), json_str(&quote::ToTokens::to_token_stream(&i.self_ty).to_string())));
+                                    }
+                                }
+                            }
+                            Item::Macro(m) => {
+                                let mn = last_ident(&m.mac.path);
+                                if macs.contains(&mn.as_str()) {
+                                    rows.push(format!("inv {} {}", json_str(&mn), json_str(&m.mac.tokens.to_string())));
+                                }
+                            }
+                            _ => {}
+                        }
+                    }
+                }
+                walk(&file.items, traits, macs, &spec.inventory_derives, &mut rows);
+                let def = format!("Definition {} : list (String.string * String.string) :=\n[{}].", spec.name, rows.join(";\n "));
+                let sig = trans::Sig { module: spec.module.to_string(), coq: spec.name.to_string(), monadic: false, extra: vec![], nparams: 0, ret: specs::Ty::Unknown };
+                return Ok((trans::Out { def, sig, aux: vec![] }, 0));
+            }
+            let (f, _) = resolve_f(&file.items, &spec.loc, spec.via.as_ref(), spec.attr_filter)?;
             let f = &f;
             let renames: Vec<(String, String)> = fn_renames.iter().filter(|(fl, _, _)| *fl == spec.file).map(|(_, a, t)| (a.clone(), t.clone())).collect();
             let info = trans::Info { items: &file.items, fn_renames: &renames, outer: f.outer.as_ref() };
